@@ -9,6 +9,7 @@
 #include <cmath>
 #include <cstdlib>
 #include <cstring>
+#include <iomanip>
 #include <limits>
 #include <random>
 #include <sstream>
@@ -201,6 +202,18 @@ static void emit_case(char const* kind, char const* engine, std::size_t nres, st
 }
 
 template <typename E> static E advanced(E e, rng& g) { e.discard(g.below(1000)); return e; }
+// the stream a checkpoint is written to belongs to the caller: it may carry format flags of its own
+static void user_flags(std::ostream& o, rng& g)
+{
+    switch (g.below(6))
+    {
+    case 0: o << std::fixed; break;
+    case 1: o << std::uppercase << std::showpos; break;
+    case 2: o << std::fixed << std::setprecision(2); break;
+    case 3: o << std::hexfloat; break;
+    default: break;
+    }
+}
 
 template <typename E>
 static void one_case(rng& g, char const* ename, E const& base, int kind, std::size_t nres, std::vector<dist_desc> const& dd)
@@ -211,6 +224,7 @@ static void one_case(rng& g, char const* ename, E const& base, int kind, std::si
         auto c = hep::make_plain_chkpt<T, E>(advanced(base, g));
         for (std::size_t i = 0; i != nres; ++i) c.add(rand_plain(g, dd), advanced(base, g));
         std::ostringstream o;
+        user_flags(o, g);
         c.serialize(o);
         std::istringstream in(o.str());
         auto r = hep::make_plain_chkpt<T, E>(in);
@@ -236,6 +250,7 @@ static void one_case(rng& g, char const* ename, E const& base, int kind, std::si
             c.add(hep::vegas_result<T>(rand_plain(g, dd), mkpdf(), adj), advanced(base, g));
         }
         std::ostringstream o;
+        user_flags(o, g);
         c.serialize(o);
         std::istringstream in(o.str());
         auto r = hep::make_vegas_chkpt<T, E>(in);
@@ -256,14 +271,17 @@ static void one_case(rng& g, char const* ename, E const& base, int kind, std::si
         // a checkpoint that has only been told its parameters: no results, no weights, not even the number of channels yet
         auto c = hep::make_multi_channel_chkpt<T, E>(T(0.1) / T(3), T(0.25), advanced(base, g));
         std::ostringstream o;
+        user_flags(o, g);
         c.serialize(o);
         std::istringstream in(o.str());
         auto r = hep::make_multi_channel_chkpt<T, E>(in);
         bool equal = r.results().empty() && same_bits(r.beta(), c.beta()) && same_bits(r.min_weight(), c.min_weight()) && eq_vec(c.channel_weights(), r.channel_weights());
         if (!equal) why = "fresh";
-        std::ostringstream o2;
+        // (both written once more to streams in their default state: the caller's flags are not part of a checkpoint)
+        std::ostringstream o1, o2;
+        c.serialize(o1);
         r.serialize(o2);
-        if (equal && o2.str() != o.str()) { equal = false; why = "fresh-text"; }
+        if (equal && o2.str() != o1.str()) { equal = false; why = "fresh-text"; }
         emit_case("mc", ename, 0, dd, 0, 0, 0, gen_words(base), o.str(), !in.fail(), equal, c.generator() == r.generator(), why);
     }
     else
@@ -297,6 +315,7 @@ static void one_case(rng& g, char const* ename, E const& base, int kind, std::si
             c.add(hep::multi_channel_result<T>(rand_plain(g, dd), adj, w), advanced(base, g));
         }
         std::ostringstream o;
+        user_flags(o, g);
         c.serialize(o);
         std::istringstream in(o.str());
         auto r = hep::make_multi_channel_chkpt<T, E>(in);
